@@ -9188,6 +9188,8 @@ class SVG(Group):
                 if "*" in styles:  # Select all.
                     style += styles["*"]
                 if tag in styles:  # selector type
+                    if len(style) != 0:
+                        style += ";"
                     style += styles[tag]
                 if SVG_ATTR_CLASS in attributes:  # Selector class .class
                     for svg_class in attributes[SVG_ATTR_CLASS].split(" "):
